@@ -181,7 +181,7 @@ def check_copy_family(rep, scr, tier, seed):
         for v in variants: getenv_batch(rep, scr, impls[v], md, consts[v], pid, v, tier, seed)
     if pid == 'C05': printf_report_batch(rep, scr, impls['O1'], consts['O1'], tier, seed)
     if pid in ('C01', 'C02', 'C03', 'C04', 'C06', 'C08'):
-        for v in variants: sweep_batch(rep, scr, impls[v], consts[v], pid, v, tier, seed)
+        for v in variants: sweep_batch(rep, scr, impls[v], consts[v], pid, v, tier, seed, md)
     report_proofs(rep, pr, pid)
     report_mismatches(rep, 'T1')
     rep.trusted = TRUSTED_COMMON
@@ -354,7 +354,10 @@ def c02_query_extents(rep, scr, impl, md, consts, tier, seed):
         b = om.get(c.id) if c.func in C10_MODELLED else None
         if b is not None and a.fault == '-' and (a.ret, a.blocks, a.handlers) != (b.ret, b.blocks, b.handlers): rep.mismatches.append((c, a, b, 'O1'))
 
-def sweep_batch(rep, scr, impl, consts, pid, var, tier, seed):
+SWEEP_MODELLED = ['strtolowercase_s', 'strtouppercase_s', 'strset_s', 'strnset_s', 'strnterminate_s', 'strcpyfld_s', 'strcpyfldin_s', 'strcpyfldout_s',
+                  'memccpy_s', 'wmemcpy_s', 'wmemmove_s', 'stpcpy_s', 'stpncpy_s']
+
+def sweep_batch(rep, scr, impl, consts, pid, var, tier, seed, md=None):
     """cross-cutting properties on the destination-writing entry points outside the copy/memory core (harness/sweep.py):
     implementation-side oracles, generic in the destination descriptor of each case"""
     import sweep, random
@@ -393,8 +396,21 @@ def sweep_batch(rep, scr, impl, consts, pid, var, tier, seed):
         with open(cf, 'w') as f:
             for c in cases: f.write(c.line() + '\n')
         oi = vlib.run_impl(impl, cf, cases, locale=(None if locname == 'C' and cases[0].meta['cls'] != 'sweep-conv' else locname))
+        om = {}
+        mc = [c for c in cases if c.func in SWEEP_MODELLED]
+        if md and mc:
+            cfm = cf + '.model'
+            with open(cfm, 'w') as f:
+                for c in mc: f.write(c.line() + '\n')
+            om = vlib.run_model(md, vlib.model_args(consts), cfm)
         for c in cases:
             a = oi.get(c.id)
+            b = om.get(c.id)
+            if a is not None and b is not None:
+                # T1 for the modelled sweep functions: the whole outcome (return, handler calls, every byte of every block, fault or not)
+                rep.extra['sweep_model_compared'] = rep.extra.get('sweep_model_compared', 0) + 1
+                if (a.ret, a.handlers, a.blocks, a.fault != '-') != (b.ret, b.handlers, b.blocks, b.fault != '-'):
+                    if not known.classify(rep, c, a, 'model-mismatch', var, consts): rep.mismatches.append((c, a, b, var))
             rep.evals += 1; rep.count('sweep/%s/%s' % (c.func, var)); scope.add(c.func)
             if a is None:
                 rep.violation('driver produced no outcome for a case', {'key': 'nooutcome', 'case': c.to_json(), 'no_failing_input': True}); continue
@@ -406,7 +422,8 @@ def sweep_batch(rep, scr, impl, consts, pid, var, tier, seed):
                     rep.violation('%s(%s): %s' % (c.func, var, text),
                                   {'key': (c.func, kind, var), 'property': pid, 'function': c.func, 'config': var, 'failure': kind, 'text': text,
                                    'case': c.to_json(), 'case_line': c.line(), 'impl_outcome': a.raw, 'model_outcome': 'none (implementation-side oracle)'})
-    rep.extra['sweep_functions (implementation-side oracle only)'] = sorted(scope)
+    rep.extra['sweep_functions (implementation-side oracle only)'] = sorted(f for f in scope if f not in SWEEP_MODELLED)
+    rep.extra['sweep_functions (Coq model, exact correspondence)'] = sorted(f for f in scope if f in SWEEP_MODELLED)
 
 REGISTRY = {p: check_copy_family for p in ('C01', 'C02', 'C03', 'C04', 'C05', 'C06', 'C07', 'C08')}
 
